@@ -1,0 +1,72 @@
+//go:build verif
+
+package verifhook
+
+import (
+	"github.com/ipfs/boxo/datastore/dshelp"
+	"github.com/ipfs/go-cid"
+
+	coreblock "github.com/sourcenetwork/defradb/internal/core/block"
+)
+
+// BlockInfo is the structure of a decoded DAG block.
+type BlockInfo struct {
+	Kind            string // composite | lww | counter | collection
+	DocID           string
+	FieldName       string
+	Priority        uint64
+	Data            []byte
+	Status          int
+	Nonce           int64
+	SchemaVersionID string
+	Heads           []string
+	Links           [][2]string // name, cid
+	Signature       string
+	Encryption      string
+}
+
+// DecodeBlock decodes the bytes of a DAG block.
+func DecodeBlock(raw []byte) (BlockInfo, error) {
+	b, err := coreblock.GetFromBytes(raw)
+	if err != nil {
+		return BlockInfo{}, err
+	}
+	bi := BlockInfo{
+		DocID:           string(b.Delta.GetDocID()),
+		FieldName:       b.Delta.GetFieldName(),
+		Priority:        b.Delta.GetPriority(),
+		Data:            b.Delta.GetData(),
+		SchemaVersionID: b.Delta.GetSchemaVersionID(),
+	}
+	switch {
+	case b.Delta.DocCompositeDelta != nil:
+		bi.Kind = "composite"
+		bi.Status = int(b.Delta.DocCompositeDelta.Status)
+	case b.Delta.LWWDelta != nil:
+		bi.Kind = "lww"
+	case b.Delta.CounterDelta != nil:
+		bi.Kind = "counter"
+		bi.Nonce = b.Delta.CounterDelta.Nonce
+	case b.Delta.CollectionDelta != nil:
+		bi.Kind = "collection"
+	}
+	for _, h := range b.Heads {
+		bi.Heads = append(bi.Heads, h.Cid.String())
+	}
+	for _, l := range b.Links {
+		bi.Links = append(bi.Links, [2]string{l.Name, l.Link.Cid.String()})
+	}
+	if b.Signature != nil {
+		bi.Signature = b.Signature.Cid.String()
+	}
+	if b.Encryption != nil {
+		bi.Encryption = b.Encryption.Cid.String()
+	}
+	return bi, nil
+}
+
+// BlockKeySuffix returns the key under which the block with the given cid is filed,
+// relative to the prefix of the block store ("/db/blocks") or of the key store ("/db/enc").
+func BlockKeySuffix(c cid.Cid) string {
+	return dshelp.MultihashToDsKey(c.Hash()).String()
+}
